@@ -7,7 +7,7 @@
    PARTIAL: the constructors of stochastic objects and molecules are not modelled; their rejection rules and
    termination are checked on the malformed stream (breaking operators, byte-level mutations, 2 s limit). *)
 From Coq Require Import List ZArith QArith Ascii String Bool.
-From GBS Require Import Model.PyStr Model.Num Model.Bond Model.Token Model.SysSplit Model.DistFam Src.SrcDist Proofs.TotalP Proofs.DistP Model.Stoch Proofs.StochP Model.Mol Proofs.MolP.
+From GBS Require Import Model.PyStr Model.Num Model.Bond Model.Token Model.SysSplit Model.DistFam Src.SrcDist Proofs.TotalP Proofs.DistP Model.Stoch Proofs.StochP Model.Mol Proofs.MolP Model.SystemM Proofs.SystemP.
 Import ListNotations.
 Open Scope Z_scope.
 
@@ -77,6 +77,11 @@ Print Assumptions C15_object_needs_opening_brace.
 Theorem C15_molecule_parse_total : forall (valid_atom : str -> bool) (fprint : num -> str) text, is_fuel (parse_molecule valid_atom fprint text) = false.
 Proof. exact parse_molecule_total. Qed.
 Print Assumptions C15_molecule_parse_total.
+
+(* systems (Model/SystemM.v): splitting loop + molecule parser on every piece + mixture bookkeeping: total for every text and caller mass *)
+Theorem C15_system_parse_total : forall (valid_atom : str -> bool) (fprint : num -> str) raw smw, is_fuel (parse_system valid_atom fprint raw smw) = false.
+Proof. exact parse_system_total. Qed.
+Print Assumptions C15_system_parse_total.
 
 Example C15_example :
   (exists m, parse_token (fun _ => true) (lit "C[$]C") 0 = Err ERuntime m) /\
